@@ -1,6 +1,6 @@
 """Child-process launcher for the C18 (determinism) check.
 
-    python -m harness.impl.launch_shuffled MODE [--sidecar FILE] [--outdir DIR] [--srcroot DIR] [--clock SECONDS] -- <pydoctor args>
+    python -m harness.impl.launch_shuffled MODE [--sidecar FILE] [--outdir DIR] [--srcroot DIR] [--clock SECONDS] [--pin SUFFIX,...] -- <pydoctor args>
 
 Runs the real `pydoctor.driver.main(<pydoctor args>)` in this interpreter (whose hash seed the
 parent fixed through PYTHONHASHSEED) after replacing the directory-listing primitives
@@ -11,6 +11,9 @@ another order:
     sorted          sorted by name
     reverse         sorted by name, reversed
     shuffle:<seed>  sorted, then shuffled by random.Random(f"{seed}:{directory}")
+
+--pin SUFFIX: directories whose path ends with SUFFIX are always listed sorted (used to attribute a listing-order
+difference to one directory, e.g. pydoctor/extensions).
 
 Every reordering is a function of the SET of entries, so applying it twice (Path.iterdir is built
 on os.listdir in some Python versions and not in others) changes nothing.
@@ -77,6 +80,20 @@ class _ScandirWrapper:
         self._it = iter(())
 
 
+PINNED: List[str] = []      # directories (path suffixes) whose listing is always handed out sorted (--pin)
+
+
+def _mode_for(mode: str, where: Any) -> str:
+    try:
+        w = os.fspath(where)
+        if isinstance(w, bytes):
+            w = os.fsdecode(w)
+        w = w.rstrip("/")
+    except TypeError:
+        return mode
+    return "sorted" if any(w.endswith(sfx) for sfx in PINNED) else mode
+
+
 def install(mode: str, record: Dict[str, Any], srcroot: Optional[str], outdir: Optional[str]) -> None:
     real_listdir = os.listdir
     real_scandir = os.scandir
@@ -98,7 +115,7 @@ def install(mode: str, record: Dict[str, Any], srcroot: Optional[str], outdir: O
         names = real_listdir(path)
         if isinstance(path, int):
             return names
-        out = _reorder(mode, os.fspath(path) if not isinstance(path, bytes) else path.decode("utf-8", "replace"), names)
+        out = _reorder(_mode_for(mode, path), os.fspath(path) if not isinstance(path, bytes) else path.decode("utf-8", "replace"), names)
         note(path, [n if isinstance(n, str) else os.fsdecode(n) for n in out])
         return out
 
@@ -107,14 +124,14 @@ def install(mode: str, record: Dict[str, Any], srcroot: Optional[str], outdir: O
             entries = list(it)
         if isinstance(path, int):
             return _ScandirWrapper(entries)
-        out = _reorder(mode, os.fspath(path) if not isinstance(path, bytes) else path.decode("utf-8", "replace"),
+        out = _reorder(_mode_for(mode, path), os.fspath(path) if not isinstance(path, bytes) else path.decode("utf-8", "replace"),
                        entries, key=lambda e: e.name)
         note(path, [e.name if isinstance(e.name, str) else os.fsdecode(e.name) for e in out])
         return _ScandirWrapper(out)
 
     def iterdir(self: pathlib.Path) -> Any:
         children = list(real_iterdir(self))
-        out = _reorder(mode, str(self), children, key=lambda p: p.name)
+        out = _reorder(_mode_for(mode, self), str(self), children, key=lambda p: p.name)
         note(self, [p.name for p in out])
         return iter(out)
 
@@ -206,6 +223,15 @@ def install_clock(fake: int, record: Dict[str, Any]) -> None:
     real_time = _time.time
     offset = fake - real_time()
     _time.time = lambda: real_time() + offset  # type: ignore[assignment]
+    # the no-argument forms of the struct_time functions read the C clock themselves (docutils' `date` directive calls
+    # time.strftime(format)): give them the moved clock too
+    real_localtime, real_gmtime, real_strftime, real_ctime, real_asctime = (
+        _time.localtime, _time.gmtime, _time.strftime, _time.ctime, _time.asctime)
+    _time.localtime = lambda secs=None: real_localtime(_time.time() if secs is None else secs)   # type: ignore[assignment]
+    _time.gmtime = lambda secs=None: real_gmtime(_time.time() if secs is None else secs)         # type: ignore[assignment]
+    _time.strftime = lambda fmt, t=None: real_strftime(fmt, _time.localtime() if t is None else t)  # type: ignore[assignment]
+    _time.ctime = lambda secs=None: real_ctime(_time.time() if secs is None else secs)           # type: ignore[assignment]
+    _time.asctime = lambda t=None: real_asctime(_time.localtime() if t is None else t)           # type: ignore[assignment]
     record["clock"] = fake
 
 
@@ -246,6 +272,7 @@ def observe_pydoctor(record: Dict[str, Any]) -> None:
             from pydoctor.templatewriter import search as _search
             record["page_files"] = [p.filename for p in list(summary.summaryPages(system)) + list(_search.searchpages)]
             record["any_root_visible"] = any(o.isVisible for o in system.rootobjects)
+            record["extensions"] = list(system.extensions)
             urls = {}
             for o in system.allobjects.values():
                 if o.documentation_location is model.DocLocation.OWN_PAGE:
@@ -271,6 +298,8 @@ def main(argv: List[str]) -> int:
     sidecar = opts.get("--sidecar")
     record: Dict[str, Any] = {"mode": mode, "hashseed": os.environ.get("PYTHONHASHSEED"),
                               "hash_of_a": hash("a")}
+    if opts.get("--pin"):
+        PINNED.extend(x.rstrip("/") for x in opts["--pin"].split(",") if x)
     if opts.get("--clock") is not None:
         install_clock(int(opts["--clock"]), record)
     install(mode, record, opts.get("--srcroot"), opts.get("--outdir"))
